@@ -219,6 +219,8 @@ def work(item):
 
 def main():
     args = std_args(PROP)
+    import logging
+    logging.getLogger("pymoca").setLevel(logging.ERROR)
     rep = Report(PROP, args.tier, "translation_validation", args.seed)
     items = []
     optsets = [("default", {}), ("aliases", {"detect_aliases": True}), ("expand", {"expand_vectors": True})]
